@@ -10,11 +10,13 @@
   succeeds then the program is a sequence of closed non-nested blocks, everything outside them is `.external`, no label sits
   outside a block, every label operand converts (defined, not external, fits), and the non-empty blocks start at distinct
   addresses (C01: the overlap check makes every inserted block's start fresh).
-  Not proved: the converse (every well-formed program is accepted) and pairwise disjointness of all blocks as one statement;
+  and no two blocks of the object file overlap (`accepted_blocks_disjoint`, Lemmas/Disjoint.lean).
+  Not proved: the converse (every well-formed program is accepted);
   these are what the correspondence check decides with an independent well-formedness scan over programs with injected faults.
 -/
 import Lc3V.Lemmas.C01Core
 import Lc3V.Props.C01
+import Lc3V.Lemmas.Disjoint
 set_option linter.unusedSimpArgs false
 namespace Lc3V.C02
 open Lc3V
@@ -154,8 +156,15 @@ theorem accepted_operands (blks : List Blk) (tail : List Stmt) (src : Option (Li
   obtain ⟨si, hsi, _⟩ := C01.stmt_words_instr t _ s i hs w2 h2
   exact ⟨si, hsi⟩
 
+/-- **an accepted program is well-formed (blocks)**: no two blocks of the object file overlap — the block map is in address
+    order and each non-empty block ends at or before the start of the next (the overlap check looks only at the two
+    neighbours of a new block; with the finished blocks already disjoint that covers all of them) -/
+theorem accepted_blocks_disjoint (stmts : List Stmt) (src : Option (List Char)) (obj : ObjFile) (h : assemble stmts src = .ok obj) :
+    obj.blocks.Pairwise (fun x y => x.1 + x.2.length ≤ y.1) ∧ ∀ x ∈ obj.blocks, x.2 ≠ [] :=
+  assembled_blocks_disjoint stmts src obj h
+
 def obligations : List Lean.Name :=
-  [``accepted_structure, ``accepted_operands, ``shift_zero, ``shift_ok, ``shift_io, ``shift_wrap, ``shift_keeps_flag, ``labels_outside_block, ``nested_orig,
+  [``accepted_structure, ``accepted_operands, ``accepted_blocks_disjoint, ``Lc3V.all_disjoint_of_neighbours, ``shift_zero, ``shift_ok, ``shift_io, ``shift_wrap, ``shift_keeps_flag, ``labels_outside_block, ``nested_orig,
    ``end_without_orig, ``stmt_outside_block, ``unclosed_orig, ``external_operand, ``undefined_operand,
    ``C01.addLabel_spec, ``C01.addLabel_conflict, ``C01.label_operand]
 
